@@ -27,8 +27,8 @@ def ctype(node):
         return ("bool", 1)
     if t in UTYPES:
         return ("u", UTYPES[t])
-    if t in ("int", "char"):
-        return ("i", 32 if t == "int" else 8)
+    if t in ("int", "char", "long", "long long"):
+        return ("i", {"int": 32, "char": 8}.get(t, 64))
     raise Unsupported("type " + t)
 
 class Ctx:
@@ -287,6 +287,64 @@ def gen_pure(fn, name):
         raise Unsupported("no return in " + name)
     return emit("gen_" + name, cx.params, cx, res)
 
+def gen_method_int(fn, gname):
+    """static int f( unsigned args ) { return <unsigned expression>; } whose result the callers store in an
+    Elf_Word: the value they see is the expression reduced to 32 bits (unsigned -> int -> Elf_Word)."""
+    if (fn.get("type", {}).get("qualType", "")).split("(")[0].strip() != "int":
+        raise Unsupported("return type of " + gname)
+    body = find_body(fn)
+    cx = Ctx()
+    for p in fn.get("inner", []):
+        if p["kind"] == "ParmVarDecl":
+            cx.param(p["name"])
+    rets = [s for s in body["inner"] if s["kind"] == "ReturnStmt"]
+    if len(rets) != 1 or len(body["inner"]) != 1:
+        raise Unsupported("body shape of " + gname)
+    e = rets[0]["inner"][0]
+    # the conversion of the unsigned result to the int return type
+    while e["kind"] == "ImplicitCastExpr" and e.get("castKind") == "IntegralCast" and ctype(e) == ("i", 32):
+        e = e["inner"][0]
+    return emit(gname, cx.params, cx, "(wrap 32 %s)" % expr(e, cx))
+
+
+def all_docs(filt, td):
+    tu = os.path.join(td, filt + ".cpp")
+    with open(tu, "w") as f:
+        f.write("#include <elfio/elfio.hpp>\n")
+    p = subprocess.run(["clang++", "-std=c++17", "-I" + REPO, "-fsyntax-only", "-Xclang", "-ast-dump=json",
+                        "-Xclang", "-ast-dump-filter=" + filt, tu], stdout=subprocess.PIPE, stderr=subprocess.PIPE, timeout=300)
+    if p.returncode != 0:
+        raise Unsupported("clang failed on %s: %s" % (filt, p.stderr.decode()[-500:]))
+    txt = p.stdout.decode(); dec = json.JSONDecoder(); i = 0; docs = []
+    while i < len(txt):
+        while i < len(txt) and txt[i] in " \n\r\t":
+            i += 1
+        if i >= len(txt):
+            break
+        obj, j = dec.raw_decode(txt, i); docs.append(obj); i = j
+    return docs
+
+
+def gen_sym_and_type(td):
+    out = []
+    seen = set()
+    for d in all_docs("get_sym_and_type", td):
+        if d.get("kind") != "ClassTemplateSpecializationDecl":
+            continue
+        targs = [c for c in d.get("inner", []) if c.get("kind") == "TemplateArgument"]
+        if len(targs) != 1:
+            raise Unsupported("template arguments of get_sym_and_type")
+        tname = targs[0]["type"]["qualType"].split("::")[-1]
+        for m in d.get("inner", []):
+            if m.get("kind") == "CXXMethodDecl" and m.get("name") in ("get_r_sym", "get_r_type") and find_body(m):
+                g = "gen_%s_%s" % (m["name"], tname)
+                out.append(gen_method_int(m, g)); seen.add(g)
+    want = {"gen_%s_%s" % (m, t) for m in ("get_r_sym", "get_r_type") for t in ("Elf32_Rel", "Elf32_Rela", "Elf64_Rel", "Elf64_Rela")}
+    if seen != want:
+        raise Unsupported("specialisations of get_sym_and_type found: %s" % sorted(seen))
+    return "\n".join(out)
+
+
 def ast_of(name, td):
     tu = os.path.join(td, name + ".cpp")
     with open(tu, "w") as f:
@@ -314,6 +372,7 @@ def generate():
     with tempfile.TemporaryDirectory(prefix="verif_leaf_") as td:
         with ThreadPoolExecutor(max_workers=8) as ex:
             asts = list(ex.map(lambda t: ast_of(t[0], td), TARGETS))
+        spec = gen_sym_and_type(td)
     out = ["(* Gen_leaf.v — GENERATED by bin/leafgen.py from the typed clang AST of /repo/elfio/*.hpp; do not edit. *)",
            "From Coq Require Import NArith Bool.", "From ElfioV Require Import Bytes Leaf_ops.", "Local Open Scope N_scope.", ""]
     for (name, kind), fn in zip(TARGETS, asts):
@@ -322,6 +381,7 @@ def generate():
         else:
             text = gen_pure(fn, name)
         out.append(text)
+    out.append(spec)
     return "\n".join(out) + "\n"
 
 def main():
